@@ -15,6 +15,13 @@ import (
 
 // C09 — integrity check: sound, complete, read-only in check mode, convergent in fix mode.
 
+func c09CfgFor(extendedKids bool) kit.WorldCfg {
+	cfg := c09Cfg
+	// a child store over things with an index of its own (nullable unique index over its child-only field)
+	cfg.Children = []kit.ChildCfg{{Name: "kids", Parent: "things", UniqueExtra: true, Extended: extendedKids}}
+	return cfg
+}
+
 var c09Cfg = kit.WorldCfg{
 	Stores: []kit.StoreCfg{
 		{Name: "things", UniqueName: true, UniqueAlias: true, RolesIndex: true, RefTo: "targets", RefWiring: kit.WireFkIndexNullable},
@@ -63,7 +70,7 @@ func c09OpGen(t *rapid.T, l string, m *kit.Model) kit.Op {
 		}
 		return op
 	}
-	stores := []string{"things", "things", "things", "targets", "targets", "owned", "deps"}
+	stores := []string{"things", "things", "things", "targets", "targets", "owned", "deps", "kids", "kids"}
 	store := stores[rapid.IntRange(0, len(stores)-1).Draw(t, l+"_store")]
 	refsTo := func(s string) []*string {
 		out := []*string{}
@@ -72,18 +79,26 @@ func c09OpGen(t *rapid.T, l string, m *kit.Model) kit.Op {
 		}
 		return out
 	}
+	if store == "kids" {
+		// through the child store: the same ids as things, plus the child-only indexed field
+		u := kit.EntUniverse{IDs: c09IDs["things"], Names: []string{"name-1", "name-2", "name-3", "name-4", "name-5", "name-6", "name-7"},
+			Aliases: []*string{nil, kit.Sp("alias-1"), kit.Sp("alias-2"), kit.Sp("alias-3"), kit.Sp("")}, Roles: []string{"role-a", "role-b", "role-c"},
+			Refs: append(refsTo("targets"), nil), Extras: []string{"", "extra-1", "extra-2", "extra-3", "extra-4"},
+			Fields: []string{kit.FName, kit.FAlias, kit.FRoles, kit.FRef, kit.FExtra}}
+		return kit.GenEntOpM(t, l, store, u, m)
+	}
 	u := kit.EntUniverse{IDs: c09IDs[store], Names: []string{"name-1", "name-2", "name-3", "name-4", "name-5", "name-6", "name-7"}, Fields: []string{kit.FName, kit.FAlias, kit.FRoles, kit.FRef}}
 	switch store {
 	case "things":
-		u.Aliases = []*string{nil, kit.Sp("alias-1"), kit.Sp("alias-2"), kit.Sp("alias-3")}
+		u.Aliases = []*string{nil, kit.Sp("alias-1"), kit.Sp("alias-2"), kit.Sp("alias-3"), kit.Sp("")} // "" is stored but, like null, never indexed
 		u.Roles = []string{"role-a", "role-b", "role-c"}
-		u.Refs = append(refsTo("targets"), nil)
+		u.Refs = append(refsTo("targets"), nil, kit.Sp("")) // an empty reference is stored but, like null, names nothing
 	case "targets":
 		u.Roles = []string{"role-a", "role-b", "role-c"}
 	case "owned":
 		u.Refs = refsTo("targets")
 	case "deps":
-		u.Refs = append(refsTo("things"), nil)
+		u.Refs = append(refsTo("things"), nil, kit.Sp(""))
 	}
 	return kit.GenEntOpM(t, l, store, u, m)
 }
@@ -122,6 +137,34 @@ func genCorruption(t *rapid.T, l string, kind string, m *kit.Model, used map[str
 	c := Corruption{Kind: kind}
 	// the nullable unique index on things.alias gets the same treatment as the non-nullable one on name
 	onAlias := storeU == "things" && strings.HasPrefix(kind, "unique-") && kind != "unique-wrong-target" && rapid.Bool().Draw(t, l+"_alias")
+	onKids := !onAlias && storeU == "things" && (kind == "unique-missing" || kind == "unique-extra-existing" || kind == "unique-extra-missing-id") && rapid.IntRange(0, 2).Draw(t, l+"_kids") == 0
+	if onKids {
+		// the child store's own unique index (its bucket lives under the parent's entity type)
+		switch kind {
+		case "unique-missing":
+			var with []string
+			for _, id := range ids {
+				if x, has := m.Ents["things"][id].Kid["kids"]; has && x != "" {
+					with = append(with, id)
+				}
+			}
+			id, ok := pickFrom(with)
+			if !ok {
+				return c, false
+			}
+			c.Store, c.ID, c.Field, c.Value = "kids", id, kit.FExtra, m.Ents["things"][id].Kid["kids"]
+		case "unique-extra-existing":
+			// the id may be a plain parent or a child entity whose field differs: stale either way
+			id, ok := pickFrom(ids)
+			if !ok {
+				return c, false
+			}
+			c.Store, c.ID, c.Field, c.Value = "kids", id, kit.FExtra, "ghost-val-"+l
+		case "unique-extra-missing-id":
+			c.Store, c.ID, c.Field, c.Value = "kids", "ghost-id-"+l, kit.FExtra, "ghost-val-"+l
+		}
+		return c, true
+	}
 	switch kind {
 	case "unique-missing":
 		if onAlias {
@@ -235,7 +278,7 @@ func genCorruption(t *rapid.T, l string, kind string, m *kit.Model, used map[str
 	case "fk-missing-backref":
 		var refs []string
 		for _, id := range sortedIDs(m.Ents["things"]) {
-			if m.Ents["things"][id].Ref != nil {
+			if r := m.Ents["things"][id].Ref; r != nil && *r != "" {
 				refs = append(refs, id)
 			}
 		}
@@ -446,6 +489,9 @@ func mustBucket(tx *bbolt.Tx, create bool, path ...string) *bbolt.Bucket {
 // apply performs the raw edit; m is updated where the edit changes what the entities themselves say (entity fields are the truth).
 func (c Corruption) apply(tx *bbolt.Tx, m *kit.Model) error {
 	idx := func(store, field string) *bbolt.Bucket {
+		if store == "kids" {
+			store = "things" // a child store's indexes are kept under the parent's entity type
+		}
 		return mustBucket(tx, true, "root", boltz.IndexesBucket, store, field)
 	}
 	switch c.Kind {
@@ -488,7 +534,7 @@ func (c Corruption) apply(tx *bbolt.Tx, m *kit.Model) error {
 		if err := b.Put([]byte(kit.FRef), typed(c.Other)); err != nil {
 			return err
 		}
-		if e.Ref != nil {
+		if e.Ref != nil && *e.Ref != "" {
 			if bb := mustBucket(tx, false, "root", "targets", *e.Ref, "refs_things"); bb != nil {
 				_ = bb.Delete(typed(c.ID))
 			}
@@ -524,7 +570,7 @@ func (c Corruption) apply(tx *bbolt.Tx, m *kit.Model) error {
 }
 
 func genC09(t *rapid.T) c09Case {
-	h := kit.GenHistory(t, c09Cfg, 20, 3, false, 95, c09OpGen)
+	h := kit.GenHistory(t, c09CfgFor(rapid.IntRange(0, 2).Draw(t, "extendedKids") == 0), 20, 3, false, 95, c09OpGen)
 	for i := range h.Txs {
 		h.Txs[i].Fail = false
 	}
@@ -585,9 +631,25 @@ func runIntegrity(w *kit.World, fix bool) ([]report, error) {
 				return fmt.Errorf("CheckIntegrity(%s, fix=%v): %v", n, fix, err)
 			}
 		}
+		for _, n := range sortedKeys(w.Kids) {
+			if err := w.Kids[n].CheckIntegrity(ctx, fix, func(err error, fixed bool) {
+				reps = append(reps, report{err.Error(), fixed})
+			}); err != nil {
+				return fmt.Errorf("CheckIntegrity(child store %s, fix=%v): %v", n, fix, err)
+			}
+		}
 		return nil
 	})
 	return reps, err
+}
+
+func sortedKeys[V any](m map[string]V) []string {
+	out := make([]string, 0, len(m))
+	for k := range m {
+		out = append(out, k)
+	}
+	sort.Strings(out)
+	return out
 }
 
 func renderReports(reps []report) string {
